@@ -83,23 +83,24 @@ HS    == S2cSign(HKey, HMsg, HData)
 HSig  == SigBytes(HS[2])
 HOpen == Ser33(HS[3])
 
-Cases ==
+\* a tuple of sets of descriptors (no union is built: TLC's set union is quadratic)
+Cases == <<
        { << "sign", k, m, d >> : k \in 1..7, m \in 1..7, d \in (IF Thorough THEN 1..4 ELSE 1..3) }
-  \cup { << "aesign", k, m, d >> : k \in 1..7, m \in {3, 5, 6}, d \in {1, 3} }
-  \cup { << "scommit", k, m, d, x >> : k \in 1..4, m \in 1..7, d \in 1..3, x \in {0, 1} }
-  \cup { << "scommitraw", k, m, x >> : k \in 1..7, m \in {3, 5}, x \in {0, 1} }
-  \cup { << "hcommit", d, x >> : d \in 1..4, x \in {0, 1} }
-  \cup { << "vcflip", w, b >> : w \in {1}, b \in 0..511 }
-  \cup { << "vcflip", w, b >> : w \in {2}, b \in 0..255 }
-  \cup { << "vcflip", w, b >> : w \in {3}, b \in 0..263 }
-  \cup { << "hvflip", w, b >> : w \in {1}, b \in 0..511 }
-  \cup { << "hvflip", w, b >> : w \in {2}, b \in 0..255 }
-  \cup { << "hvflip", w, b >> : w \in {3}, b \in 0..263 }
-  \cup { << "hvflip", w, b >> : w \in {4}, b \in { x \in 0..255 : Thorough \/ x % 4 = 3 } }
-  \cup { << "hvflip", w, b >> : w \in {5}, b \in { x \in 0..263 : Thorough \/ x % 4 = 3 } }
-  \cup { << "vc", v, x >> : v \in 1..12, x \in {0, 1} }
-  \cup { << "hv", v, x >> : v \in 1..12, x \in {0, 1} }
-  \cup { << "open", v >> : v \in 1..12 }
+     , { << "aesign", k, m, d >> : k \in 1..7, m \in {3, 5, 6}, d \in {1, 3} }
+     , { << "scommit", k, m, d, x >> : k \in 1..4, m \in 1..7, d \in 1..3, x \in {0, 1} }
+     , { << "scommitraw", k, m, x >> : k \in 1..7, m \in {3, 5}, x \in {0, 1} }
+     , { << "hcommit", d, x >> : d \in 1..4, x \in {0, 1} }
+     , { << "vcflip", w, b >> : w \in {1}, b \in 0..511 }
+     , { << "vcflip", w, b >> : w \in {2}, b \in 0..255 }
+     , { << "vcflip", w, b >> : w \in {3}, b \in 0..263 }
+     , { << "hvflip", w, b >> : w \in {1}, b \in 0..511 }
+     , { << "hvflip", w, b >> : w \in {2}, b \in 0..255 }
+     , { << "hvflip", w, b >> : w \in {3}, b \in 0..263 }
+     , { << "hvflip", w, b >> : w \in {4}, b \in { x \in 0..255 : Thorough \/ x % 4 = 3 } }
+     , { << "hvflip", w, b >> : w \in {5}, b \in { x \in 0..263 : Thorough \/ x % 4 = 3 } }
+     , { << "vc", v, x >> : v \in 1..12, x \in {0, 1} }
+     , { << "hv", v, x >> : v \in 1..12, x \in {0, 1} }
+     , { << "open", v >> : v \in 1..12 } >>
 
 Ctx(x) == IF x = 1 THEN [ ctx |-> 1 ] ELSE [ ctx |-> 0 ]
 VC(sig, data, opening, x) == [ e |-> "S2cVerifyCommit", in |-> [ sig |-> sig, data |-> data, opening |-> opening ] @@ Ctx(x) ]
@@ -175,7 +176,7 @@ Expand(c) ==
 VARIABLES phase, cur, rec
 vars == << phase, cur, rec >>
 Init == phase = "pick" /\ cur = << >> /\ rec = << >>
-Pick == phase = "pick" /\ \E c \in Cases : cur' = c /\ phase' = "eval" /\ rec' = << >>
+Pick == phase = "pick" /\ \E j \in DOMAIN Cases : \E c \in Cases[j] : cur' = c /\ phase' = "eval" /\ rec' = << >>
 Eval == phase = "eval" /\ LET x == Expand(cur) IN rec' = [ e |-> x.e, in |-> x.in, out |-> Out(x) ]
         /\ phase' = "done" /\ cur' = cur
 Next == Pick \/ Eval
